@@ -474,4 +474,4 @@ def _obligations():
 
 
 def obligations():
-    return _obligations() + [labels_obligation("C17"), selectors_obligation("C17"), effects_obligation("C17")]
+    return _obligations() + [labels_obligation("C17"), selectors_obligation("C17"), effects_obligation("C17"), plumbing_obligation("C17")]
